@@ -273,6 +273,7 @@ func c17RunE2ETie(r *h.Result, sc *fakes.Script, q storage.Querier, c *c17E2ECas
 			return "", "", err
 		}
 	}
+	c17SeriesOrder(r, got, *c) // the SeriesSet level: strictly ascending by labels.Compare
 	want := c17Expected(c, ms)
 	c.Got, c.Want = "", ""
 	gotBy := map[uint64]c17Series{}
